@@ -49,7 +49,7 @@ def plan(prop):
             obs.append((core, lambda ctx, k=k, n=n, c=closed: co.ob_insertion_e2e(ctx, k, n, c)))
         for k, closed in ([(0, True), (1, True)] if Q else [(0, True), (1, True), (1, False), (2, True)]):
             obs.append((core, lambda ctx, k=k, c=closed: co.ob_insertion_e2e_both(ctx, k, c)))
-        cap = [(0, 'single', True), (1, 'single', True), (0, 'shipment', True), (1, 'shipment', True)] if Q else \
+        cap = [(0, 'single', True), (1, 'single', True), (0, 'shipment', True), (1, 'shipment', True), (1, 'single', False)] if Q else \
             [(0, 'single', True), (1, 'single', True), (2, 'single', True), (0, 'shipment', True), (1, 'shipment', True),
              (1, 'single', False), (1, 'shipment', False)]
         for k, shape, closed in cap:
@@ -97,6 +97,8 @@ def plan(prop):
                       (('service', 'pickup', 'pickup', 'delivery'), 1, (7, 3, 2, 5, 4))]
         for kinds, dims, wr in tours:
             obs.append((prag, lambda ctx, kinds=kinds, dims=dims, wr=wr: po.ob_writer_tour(ctx, kinds, dims, wr)))
+        for kinds, dims, wr in ([(('delivery', 'pickup'), 1, (7, 3, 2, 2, 2))] if Q else [(('delivery', 'pickup'), 1, (7, 3, 2, 2, 2)), (('pickup', 'service', 'delivery'), 2, (1, 2, 5, 5, 5)), ((), 1, (7, 3, 2, 2, 2))]):
+            obs.append((prag, lambda ctx, kinds=kinds, dims=dims, wr=wr: po.ob_writer_tour(ctx, kinds, dims, wr, False)))
         obs.append((prag, lambda ctx: po.ob_statistic_sum(ctx)))
         for how in ('location', 'disjoint', 'any'):
             obs.append((prag, lambda ctx, how=how: po.ob_job_tag(ctx, how)))
